@@ -86,3 +86,47 @@ func HasEmptySelection(q *Query) bool {
 	}
 	return false
 }
+
+// InjectUnionTypename returns a copy of q in which every union selection set that does not
+// select a plain `__typename` itself gets `<alias>: __typename` as its first selection. It is
+// used to model a gateway that adds __typename under unions for its own dispatch.
+func InjectUnionTypename(q *Query, s *Spec, alias string) *Query {
+	out := &Query{OpName: q.OpName, Kind: q.Kind, Vars: q.Vars, Values: q.Values}
+	var walk func(obj string, isUnion bool, ss []Sel) []Sel
+	walk = func(obj string, isUnion bool, ss []Sel) []Sel {
+		res := make([]Sel, 0, len(ss)+1)
+		own := false
+		for _, x := range ss {
+			c := x
+			switch x.Kind {
+			case "field":
+				if x.Name == "__typename" && x.Alias == "" && len(x.Dirs) == 0 {
+					own = true
+				}
+				if x.Sub != nil && !isUnion {
+					if tf := s.FieldOf(obj, x.Name); tf != nil {
+						comp, u := Composite(tf.GoType)
+						c.Sub = walk(comp, u, x.Sub)
+					}
+				}
+			case "inline":
+				if isUnion && x.On != obj {
+					c.Sub = walk(x.On, false, x.Sub) // member fragment
+				} else {
+					c.Sub = walk(obj, isUnion, x.Sub)
+				}
+			}
+			res = append(res, c)
+		}
+		if isUnion && !own {
+			res = append([]Sel{{Kind: "field", Name: "__typename", Alias: alias}}, res...)
+		}
+		return res
+	}
+	out.Sels = walk("Query", false, q.Sels)
+	for _, f := range q.Frags {
+		_, isU := UnionTypes[f.On]
+		out.Frags = append(out.Frags, FragDef{Name: f.Name, On: f.On, Sels: walk(f.On, isU, f.Sels)})
+	}
+	return out
+}
